@@ -40,8 +40,29 @@ def mask(w):
 
 # ---------------------------------------------------------------------------------------- generators
 
+def gen_range(rnd, w):
+    """a range(lo, hi) whose cast shape is w bits wide and which (usually) does not fill those bits"""
+    from amaranth.hdl import Shape
+    if w == 0:
+        return 0, 1
+    for _ in range(200):
+        if rnd.random() < 0.5:
+            hi = rnd.randint((1 << (w - 1)) + 1, 1 << w); lo = rnd.randint(0, hi - 1)
+        else:
+            half = 1 << (w - 1)
+            lo = -rnd.randint(1, half); hi = rnd.randint(1, half)
+        if Shape.cast(range(lo, hi)).width == w:
+            return lo, hi
+    return 0, 1 << w
+
+
 def gen_shape(rnd, w, kind):
-    t = rnd.choice(["u", "u", "s", "enum", "flag"])
+    t = rnd.choice(["u", "u", "s", "enum", "flag", "range"])
+    if t == "range" and w > 16:          # len(range) must fit a C ssize_t inside Shape.cast
+        t = "u"
+    if t == "range":
+        lo, hi = gen_range(rnd, w)
+        return {"t": "range", "w": w, "lo": lo, "hi": hi}
     if t in ("s", "flag") and w == 0:    # signed(0) and a Flag without members do not exist
         t = "u"
     sh = {"t": t, "w": w}
@@ -62,8 +83,10 @@ def gen_init(rnd, sh):
     """None = constructor default.  Enum/Flag inits must be constant initialisers of the enum
     (Signal() itself refuses anything else), so they are drawn from the members."""
     w = sh["w"]
-    if rnd.random() < 0.12:
+    if rnd.random() < 0.12 and not (sh["t"] == "range" and not (sh["lo"] <= 0 < sh["hi"])):
         return None
+    if sh["t"] == "range":           # must lie inside the range (anything else is refused with ValueError)
+        return rnd.randrange(sh["lo"], sh["hi"])
     if sh["t"] == "enum":
         return rnd.choice(sh["members"])
     if sh["t"] == "flag":
@@ -265,6 +288,8 @@ def mk_shape(sh):
         return unsigned(w)
     if sh["t"] == "s":
         return signed(w)
+    if sh["t"] == "range":
+        return range(sh["lo"], sh["hi"])
     if sh["t"] == "enum":
         base, under = aenum.Enum, (signed(w) if sh.get("signed") else unsigned(w))
         members = {("M%d" % k): v for k, v in enumerate(sh["members"])}
